@@ -103,15 +103,15 @@ HistT(h, ev, w2) ==
        THEN [h EXCEPT !.tsupply = Put(@, Arg(ev,1).h, PAdd(TSupplyOf(h, Arg(ev,1).h), Arg(ev,2).q))]
   ELSE h
 
-\* C01 / C02 state invariants
+\* C01's accounting: for every storage key, balances + in-flight transfers are invariant under transfers, deliveries and refunds (history h.tsupply, re-based after every other call)
 TransferConservation(w, h) ==
   LET items == FlatItems(w.msgs) IN
   \A k \in UNION {DOMAIN w.acct[a].esdt : a \in Accts(w)} \cup ItemKeys(items) \cup DOMAIN h.tsupply : TotalI(w, items, k) = TSupplyOf(h, k)
-\* C02's accounting: for every storage key, balances + in-flight transfers = what issues, mints, creates, burns and wipes STATED (history h.supply)
+\* the accounting of C02: for every storage key, balances + in-flight transfers = what issues, mints, creates, burns and wipes STATED (history h.supply)
 Conservation(w, h) ==
   LET items == FlatItems(w.msgs) IN
   \A k \in UNION {DOMAIN w.acct[a].esdt : a \in Accts(w)} \cup ItemKeys(items) \cup DOMAIN h.supply : TotalI(w, items, k) = SupplyOf(h, k)
-\* (Bad: a positive amount the scaled projection cannot represent - e.g. a mint of a non-multiple of the trace's unit; Bad + 1: such an amount
+\* no stored balance is negative.  (Bad: a positive amount the scaled projection cannot represent - e.g. a mint of a non-multiple of the trace's unit; Bad + 1: such an amount
 \*  with a negative sign)
 NoNegative(w) == \A a \in Accts(w) : \A k \in DOMAIN w.acct[a].esdt : w.acct[a].esdt[k].val >= 0 \/ w.acct[a].esdt[k].val = Bad
 
@@ -130,7 +130,7 @@ EntryWF(k, e) ==
   /\ e.type = 0 => ~e.hm
   /\ e.type = 1 => e.hm /\ e.meta.nonce > 0 /\ \E t \in {SubSeq(k, 1, j) : j \in 0..Len(k)} : k = t \o NBHex(e.meta.nonce)
   /\ e.type \in {0, 1}
-\* C15: every protocol entry decodes, has a positive balance (zero only with the frozen flag), the right shape for its kind, a key matching its nonce and an issued token; role lists without duplicates; the create-role holder's counter covers every nonce issued
+\* well-formedness (C15): every protocol entry decodes, has a positive balance (zero only with the frozen flag), the right shape for its kind, a key matching its nonce and an issued token; role lists without duplicates; the create-role holder's counter covers every nonce issued
 WellFormed(w, h) ==
   \A a \in Accts(w) :
     LET ac == w.acct[a] IN
@@ -139,7 +139,7 @@ WellFormed(w, h) ==
     /\ \A t \in DOMAIN ac.roles : (IsDupTok(t) \/ NoDup(ac.roles[t])) /\ ac.roles[t] # <<>>
     /\ \A t \in DOMAIN ac.roles : (RoleCreate \in Range(ac.roles[t]) /\ ~IsDupTok(t)) => CtrOf(ac, t) >= MaxN(h, t)
     /\ \A t \in DOMAIN ac.ctr : ac.ctr[t] > 0
-\* C07: the create-role holder's counter covers every nonce ever issued; nobody else keeps a counter
+\* the create-role holder's counter covers every nonce ever issued; nobody else keeps a counter
 CounterWithRole(w, h) ==
   \A a \in Accts(w) :
     LET ac == w.acct[a] IN
